@@ -15,9 +15,9 @@ ID = 'C17'
 
 def plan(tier):
     if tier == 'quick':
-        return [(3, ('tri', 'trix', 'triw'), 'R', 0, False), (1, ('plain',), 'RBW', 2, False), (2, ('plain', 'rainbow'), 'RBW', 2, True), (3, ('plain',), 'RBW', 2, False), (2, ('plain',), 'oq', 2, False),
+        return [(3, ('rs1s', 'rs2s', 'rs1c', 'rs2c'), 'RB', 0, False), (3, ('tri', 'trix', 'triw'), 'R', 0, False), (1, ('plain',), 'RBW', 2, False), (2, ('plain', 'rainbow'), 'RBW', 2, True), (3, ('plain',), 'RBW', 2, False), (2, ('plain',), 'oq', 2, False),
                 (4, ('plain',), 'RW', 2, False), (3, ('parsed',), 'RW', 1, False), (3, ('long',), 'RW', 2, False), (2, ('plain',), 'WN', 3, False), (2, ('plain',), 'RB', 3, False), (3, ('dup1', 'dup2'), 'RW', 1, False), (4, ('rs1', 'rs2'), 'RBW', 1, False), (2, ('wide', 'wide2'), 'RW', 1, False)]
-    return [(4, ('tri', 'trix', 'triw'), 'R', 0, False), (1, ('plain',), 'RBWX', 3, False), (2, ('plain', 'rainbow'), 'RBWX', 2, True), (3, ('plain', 'rainbow'), 'RBW', 2, True), (3, ('plain',), 'oqW', 2, False),
+    return [(4, ('rs1s', 'rs2s', 'rs1c', 'rs2c'), 'RBW', 1, False), (4, ('tri', 'trix', 'triw'), 'R', 0, False), (1, ('plain',), 'RBWX', 3, False), (2, ('plain', 'rainbow'), 'RBWX', 2, True), (3, ('plain', 'rainbow'), 'RBW', 2, True), (3, ('plain',), 'oqW', 2, False),
             (3, ('plain',), 'RB', 3, False), (4, ('plain', 'rainbow'), 'RBW', 2, False), (5, ('plain',), 'RW', 2, False), (3, ('long',), 'RBW', 2, False), (3, ('dup1', 'dup2'), 'RW', 1, False), (4, ('rs1', 'rs2'), 'RBW', 2, False), (2, ('wide', 'wide2'), 'RW', 2, False), (3, ('wide',), 'RW', 1, False)]
 
 
